@@ -8,12 +8,14 @@ from .common import hx, sx, parse_sx, unhx
 TB14 = [
     "Coq 8.16.1 kernel; no axioms",
     "Exec.v: mirror of exec_transferring_pid's request construction (split_whitespace for cmd, argv as given, chdir) and of 'a successful exec ends the task list'",
+    "Become.v: mirror of the become branch of task/mod.rs::exec_module (user lookup by name, then by u32 number; same-uid shortcut; transfer_pid drops in the main process instead of forking); expected credentials and 'no such user' come from it, evaluated on this machine's passwd database",
     "kernel contracts: execve keeps the PID; setgid/setuid drop privileges; observed through a helper process (vh execdump) that records its own pid, argv, cwd, environment, uid and gid",
     "python generator, real `rash` binary started with Popen (so the PID is known before exec)",
 ]
 TB15 = [
     "Coq 8.16.1 kernel; no axioms",
     "JsonVal.v: value layer of serde_json::to_string(&Value) / from_str + Value::from_serialize as used for the child->parent store transfer (the JSON text layer, ipc-channel, fork and waitpid are trusted)",
+    "Become.v: mirror of the become branch of exec_module: which passwd entry (uid AND primary gid) a become_user text denotes, which texts denote no user, what the main process keeps",
     "Engine.v (C01/C02) predicts nothing here: each program is run twice on the real binary, with and without become to `nobody`, and the two observations are compared",
     "harness runs as root; the sandbox directory is world-writable so that the unprivileged child can append to the marker log",
 ]
@@ -27,19 +29,44 @@ def nobody():
         return None
 
 
-def become_users():
-    """(become_user text, expected uid, expected gid): nobody by name and by number, and a user whose primary
-    group id differs from its user id, by name and by number (a numeric become_user must be looked up too)"""
+def become_texts():
+    """become_user texts: nobody by name and by number, a user whose primary gid differs from its uid by name and by
+    number (with `+` and leading zeros, which u32 parsing accepts), unknown names and numbers, out-of-range numbers"""
     out = []
     try:
         p = pwd.getpwnam("nobody")
-        out += [("nobody", p.pw_uid, p.pw_gid), (str(p.pw_uid), p.pw_uid, p.pw_gid)]
+        out += ["nobody", str(p.pw_uid)]
     except KeyError:
         pass
     odd = [u for u in pwd.getpwall() if u.pw_uid != u.pw_gid and u.pw_uid not in (0, 65534)]
     if odd:
         u = sorted(odd, key=lambda u: u.pw_uid)[0]
-        out += [(u.pw_name, u.pw_uid, u.pw_gid), (str(u.pw_uid), u.pw_uid, u.pw_gid)]
+        out += [u.pw_name, str(u.pw_uid), "+%d" % u.pw_uid, "00%d" % u.pw_uid]
+    return out + ["no_such_user_xyz", "54321", "4294967296", "-1", ""]
+
+
+_BECOME_CACHE = {}
+
+
+def model_become(user, is_command, transfer):
+    """what Become.v (mirror of exec_module's become branch) says for this passwd database and caller:
+    (path, module creds or None, main creds)"""
+    key = (user, is_command, transfer)
+    if key not in _BECOME_CACHE:
+        pw = [[hx(u.pw_name), u.pw_uid, u.pw_gid] for u in pwd.getpwall()]
+        o = C.run_oracle([sx(["become", ["passwd"] + pw, ["cur", os.getuid(), os.getgid()], ["task", True, hx(user), bool(is_command), bool(transfer)]])])[0]
+        e = parse_sx(o)
+        _BECOME_CACHE[key] = (e[0], None if e[1] == "none" else (int(e[1][1]), int(e[1][2])), (int(e[2][1]), int(e[2][2])))
+    return _BECOME_CACHE[key]
+
+
+def become_users():
+    """(text, uid, gid) for the texts the MODEL resolves to a user other than the caller"""
+    out = []
+    for t in become_texts():
+        path, mc, _ = model_become(t, True, True)
+        if path == "drop-then-exec":
+            out.append((t, mc[0], mc[1]))
     return out
 
 
@@ -60,7 +87,7 @@ def run_transfer(root, pre, argv_or_cmd, chdir, become, vh_exit, rash_env_args, 
     if chdir:
         L += ["    chdir: " + json.dumps(chdir)]
     L += ["    transfer_pid: true"]
-    if become:
+    if become is not False and become is not None:
         L += ["  become: true", "  become_user: %s" % json.dumps(become if isinstance(become, str) else "nobody")]
     if post:
         L += ["- command:", "    cmd: \"echo post >> %s/log\"" % root]
@@ -159,6 +186,16 @@ def c14(run, replay=None):
         got = None if o["dump"] is None else [bytes.fromhex(a).decode() for a in o["dump"]["argv"]]
         if got != words[2:]:
             run.violation("transfer_pid cmd form: arguments %r, model split_whitespace gives %r" % (got, words[2:]), dict(cmd=c, observed=o))
+    # become_user that the model does not resolve: the task fails, the command is never executed, nothing later runs
+    if nb and os.geteuid() == 0:
+        for t in become_texts():
+            path, mc, _ = model_become(t, True, True)
+            if path != "user-not-found":
+                continue
+            o = run_transfer(root, 1, [C.VH, "execdump", "x"], None, t, 0, [])
+            if o["dump"] is not None or o["rc"] in (0, "timeout") or o["log"] != ["pre0"]:
+                run.violation("transfer_pid with become_user %r (no such user by the model of the lookup): rc=%r, command ran=%s, log=%r" % (t, o["rc"], o["dump"] is not None, o["log"]),
+                              dict(become_user=t, observed={k: v for k, v in o.items() if k != "env_given"}))
     # the command cannot be executed: error, non-zero exit, nothing later runs
     o = run_transfer(root, 1, ["/nonexistent/prog", "x"], None, False, 0, [])
     if o["rc"] in (0, "timeout") or o["log"] != ["pre0"]:
@@ -226,7 +263,18 @@ def c15(run, replay=None):
     if o["rc"] != 0 or not o["stdout"].startswith(want) or ("<<u>> é✓ 12 true 0 true %d" % os.getuid()) not in o["stdout"]:
         run.violation("become credentials / registered result: %r" % o, dict(script=script, observed=o))
     # every way of naming the user: uid AND primary gid of the passwd entry, inside; the caller's own, after
-    for bu, uid, gid in become_users():
+    for bu in become_texts():
+        path, mc, mainc = model_become(bu, True, False)
+        if path == "user-not-found":
+            sc = "#!/usr/bin/env rash\n- command: id -u\n  become: true\n  become_user: %s\n- command: id -u\n" % json.dumps(bu)
+            o = E.run_impls([dict(files={"main.rh": dict(raw=sc)}, world_writable=True)], timeout=15)[0]
+            if o["rc"] in (0, "timeout") or o["stdout"].strip() != "":
+                run.violation("become_user %r is not a user (by the model of the lookup) but the task did not fail cleanly: rc=%r stdout=%r" % (bu, o["rc"], o["stdout"]),
+                              dict(script=sc, observed=o))
+            continue
+        uid, gid = mc
+        if mainc != (os.getuid(), os.getgid()):
+            run.violation("model: main credentials change without transfer_pid", dict(model=(path, mc, mainc)), no_input=True)
         sc = ("#!/usr/bin/env rash\n- command: id -u\n  become: true\n  become_user: %s\n- command: id -g\n  become: true\n  become_user: %s\n- command: id -u\n- command: id -g\n"
               % (json.dumps(bu), json.dumps(bu)))
         o = E.run_impls([dict(files={"main.rh": dict(raw=sc)}, world_writable=True)], timeout=15)[0]
